@@ -513,7 +513,17 @@ func checkT5(c *Ctx, jr *joinRoles) {
 			for _, in := range b.Instrs {
 				if call, ok := in.(*ssa.Call); ok {
 					if cal := p.Callee(call); cal != nil && p.funcDisplay(cal) == "(*time.Ticker).Stop" {
-						if _, isDefer := in.(*ssa.Defer); !isDefer && (blockInLoop(call.Block()) || !isLoopFn(jr, fn)) {
+						// (a Stop inside a closure or helper that itself only ever runs as a deferred call is a deferred Stop)
+				deferredHelper := false
+				if sites := p.CallSites(fn); len(sites) > 0 && !blockInLoop(call.Block()) {
+					deferredHelper = true
+					for _, cs := range sites {
+						if _, isD := cs.(*ssa.Defer); !isD || blockInLoop(cs.Block()) {
+							deferredHelper = false
+						}
+					}
+				}
+				if _, isDefer := in.(*ssa.Defer); !isDefer && !deferredHelper && (blockInLoop(call.Block()) || !isLoopFn(jr, fn)) {
 							c.R.Fail("T5", joinKey(jr, fn, "ticker-stop"), p.InstrPos(call), "the ticker is stopped while the discipline runs (not by a defer / after the receive loop): until something re-arms it the timeout is not examined and accumulated elements wait without bound")
 						}
 					}
@@ -693,7 +703,12 @@ func checkT5(c *Ctx, jr *joinRoles) {
 			if s.Op == "extract" && s.Args[0].Op == "call" && depth < 3 {
 				if call, ok := s.Args[0].V.(*ssa.Call); ok && p.IsProduct(p.Callee(call)) {
 					// a wrapper: parameters must be passed through in order
+					// (arguments beyond the wrapper's own parameters - e.g. the error values a shared
+					// helper is told to return - do not take part in the computation of the interval)
 					for i, a := range call.Call.Args {
+						if i >= len(fn.Params) {
+							break
+						}
 						if par, ok := a.(*ssa.Parameter); !ok || paramIndex(fn, par) != i {
 							forms = append(forms, &Sym{Op: "other", Name: "wrapper does not pass its parameters through"})
 						}
